@@ -475,8 +475,10 @@ fn main() {
         let w = weight_of(q.as_ref(), &s_small, false);
         let truth = shape.sem();
         let r = s_small.segment_reader(0);
-        exercise(&mut ctx, "witness_F131", &|| w.scorer(r, 1.0).unwrap(), &truth, &format!("(qsem {})", shape.coq()), None,
-                 Some(("F131", format!("union_in_union {}", shape.coq()))), false, 1, 1, json!({"shape": shape.coq()}));
+        // F131 is fixed: a missed document is an ordinary violation; the two-level model follows the pinned shape
+        let model = "run_inter_luu [1;5000;10000] [inr [[10000];[10001]]; inl [1;19990;19991;19992;19993;19994]] true true";
+        exercise(&mut ctx, "regression_F131", &|| w.scorer(r, 1.0).unwrap(), &truth, &format!("(qsem {})", shape.coq()), Some(model),
+                 None, false, 6, 6, json!({"shape": shape.coq()}));
     }
 
     // ---------------- (0b) directed: a union with an intersection child, driven by seek_danger (scores) ----------------
@@ -493,7 +495,7 @@ fn main() {
         let truth = shape.sem();
         let r = s_small.segment_reader(0);
         exercise2(&mut ctx, "directed_union_of_intersection", &|| w.scorer(r, 1.0).unwrap(), &truth, &format!("(qsem {})", shape.coq()), None,
-                 Some(("F131", format!("union_in_union {}", shape.coq()))), Some(shape.coq()), true, 12, 2, json!({"shape": shape.coq()}));
+                 None, Some(shape.coq()), true, 12, 2, json!({"shape": shape.coq()}));
     }
 
     // ---------------- (1) leaf alone: the default methods of the trait ----------------
@@ -595,13 +597,13 @@ fn main() {
         ctx.out.count(&format!("tree_depth_{}", shape.depth()), 1);
         let sdesc = if truth.len() <= 60 && id <= 6 { shape.coq() } else { format!("{} leaves, depth {}", id, shape.depth()) };
         exercise2(&mut ctx, "bool_tree", &|| w.scorer(r, 1.0).unwrap(), &truth, &format!("(qsem {})", shape.coq()), None,
-                 Some(("F131", format!("union_in_union {}", shape.coq()))), Some(shape.coq()), scoring, 8, 2, json!({"shape": sdesc, "scoring": scoring}));
+                 None, Some(shape.coq()), scoring, 8, 2, json!({"shape": sdesc, "scoring": scoring}));
         // Weight::count goes through count_including_deleted of a fresh scorer
         let c = guarded(|| s.search(q.as_ref(), &Count));
         let cnt_ok = matches!(&c, Ok(Ok(n)) if *n == truth.len());
         if !cnt_ok {
             let d = json!({"what": "Count collector", "got": format!("{:?}", c), "expected": truth.len(), "shape": sdesc});
-            ctx.out.coq_case("known:F131", format!("union_in_union {}", shape.coq()), d, true);
+            ctx.out.spec_checked(false, d);
         } else { ctx.out.spec_checked(true, json!(null)); }
     }
 
